@@ -27,6 +27,12 @@ CHECKS["C10"] = (MC,
     "trusted: TLC, the grammar automata in LexOps.tla (reviewed against RFC 9110/9112 ABNF), the regex->DFA extractor (validated against the real re object through the call-site sweep on every run); numeric conversion after the gate is sampled on pumped strings only",
     "language equality decided by TLC on the product automaton (TLA+ grammar DFA x extracted implementation DFA) + TLC-judged call-site sweep")
 
+CHECKS["C20"] = (MC,
+    "Adjust.tla is the single source (documented option table, exclusion rules, documented casts). TLC enumerates the complete bounded configuration space (every subset of the exclusive groups x trusted_proxy x count x header-kind sets incl. case variants x unknown option x socket-list kinds) with the verdict start-up must give, and the cast table; every emitted case is replayed on the real Adjustments in keyword and command-line form (refused iff the spec says so; resulting setting = documented value; CLI = keyword). TLC also checks the spec's option table against the three tables extracted at check time from Adjustments._params, docs/arguments.rst and runner.HELP. The space is finite and small: TLC contributes enumeration and set comparison.",
+    "DESIGN.md 3.11, 6 (C20)",
+    "trusted: TLC, the transcription of the documentation into Adjust.tla; listen values are only compared between CLI and keyword forms; real sockets are created (unbound) for the socket-list kinds",
+    "TLC-enumerated configuration space of a TLA+ specification replayed on the implementation (spec -> code), TLC set comparison of option tables")
+
 EXP = "exploration"
 _chan_note = "trusted: TLC (judging), the simulated kernel and scheduler shims (Lock/Condition/select/poll/pipe semantics), the independent response lexer wv/httpclient.py; schedule coverage on the code is bounded (all schedules with <= 1 pre-emption up to a limit, sampled beyond)"
 _chan_tech = "deterministic schedule exploration of the real server (bounded DFS + PCT/pre-emption sampling) with TLC trace validation against the TLA+ property monitor Pipeline.tla"
